@@ -324,6 +324,8 @@ pub fn integ_decl() -> impl Strategy<Value = IntegDecl> {
         1 => Just(IntegDecl::MultiWeakerOfOther),
         1 => Just(IntegDecl::MultiStrongerOfOther),
         1 => Just(IntegDecl::NoHashes),
+        1 => Just(IntegDecl::MultiThree),
+        1 => Just(IntegDecl::MultiRightInTheMiddle),
     ]
 }
 
@@ -335,6 +337,8 @@ pub fn integ_decl_matching() -> impl Strategy<Value = IntegDecl> {
         1 => Just(IntegDecl::MultiWithCorrect),
         1 => Just(IntegDecl::MultiTwoAlgos),
         1 => Just(IntegDecl::MultiWeakerOfOther),
+        1 => Just(IntegDecl::MultiThree),
+        1 => Just(IntegDecl::MultiRightInTheMiddle),
     ]
 }
 
